@@ -397,6 +397,7 @@ ScenarioOK(sc) ==
 (*   snap   what the first `snap` probe saw      tl    ghost: traced       *)
 (*          commands [f fields, t text] / assignments [v value, t text]    *)
 (*   fx     ghost: an expansion of PS4 had an effect (arithmetic, error)   *)
+(*   wr     ghost: the variables assigned since the set was last emptied   *)
 (***************************************************************************)
 EmptyMap == [n \in {} |-> ""]
 Val(V, n) == IF n \in DOMAIN V THEN V[n] ELSE ""
@@ -417,12 +418,12 @@ State0(o, P, variant, dots, env4) ==
    xt |-> o.x, vb |-> o.v, nx |-> o.n /\ ~o.i, inter |-> o.i,
    err |-> <<>>, outs |-> <<"">>, files |-> EmptyMap, st |-> 0, halt |-> FALSE, cls |-> "ok",
    P |-> P, pu |-> {}, var |-> variant, snap |-> <<>>, tl |-> <<>>, dots |-> dots,
-   cache |-> "", cached |-> FALSE, depth |-> 0, nxp |-> FALSE, fx |-> FALSE, why |-> ""]
+   cache |-> "", cached |-> FALSE, depth |-> 0, nxp |-> FALSE, fx |-> FALSE, why |-> "", wr |-> {}]
 
 Worse(a, b) == IF "skip" \in {a, b} THEN "skip" ELSE IF "open" \in {a, b} THEN "open" ELSE "ok"
 Class(S, c) == [S EXCEPT !.cls = Worse(@, c)]
 ClassW(S, c, w) == [S EXCEPT !.cls = Worse(@, c), !.why = IF @ = "" THEN w ELSE @]
-SetVar(S, n, v) == [S EXCEPT !.vars = WithKey(@, n, v)]
+SetVar(S, n, v) == [S EXCEPT !.vars = WithKey(@, n, v), !.wr = @ \cup {n}]
 
 WriteTo(S, sink, kind, text) ==
   IF text = "" THEN S
@@ -710,7 +711,7 @@ Simple(c, S0, C) ==
         \* the line: assignments, fields, redirections (xtrace module documentation)
         ftext == FieldsText(S, W.f)
         text == JoinParts(<<JoinParts(A.tr), ftext, IF S.var = "noredir" THEN "" ELSE JoinParts(R.tr)>>)
-        T0 == TraceSink(A.S, C, C1, c.id)
+        T0 == TraceSink([A.S EXCEPT !.wr = {}], C, C1, c.id)
         \* where the diagnostic of a failing PS4 expansion goes when the command redirects descriptor 2
         T == IF S.xt /\ C1.fds[2] # C.fds[2] /\ (\E i \in 1..Len(A.S.ps4) : A.S.ps4[i].k = "err")
              THEN [T0 EXCEPT !.S = ClassW(@, "open", "ps4-error-with-fd2-redirect")] ELSE T0
@@ -748,10 +749,11 @@ Simple(c, S0, C) ==
         \* simple.md: "Assigned variables are removed unless the target was a special built-in"
         \* XCU 2.9.1 leaves open what becomes of a variable assigned for the duration of a
         \* command when the command itself (or the expansion of PS4) assigns it again
-        reassigned == \E n \in AssignedNames(c.as) : Val(S4.vars, n) # Val(A.S.vars, n)
-    IN IF special THEN S4
-       ELSE IF reassigned THEN ClassW(S4, "open", "temporary-variable-reassigned")
-       ELSE RestoreVars(S4, before, AssignedNames(c.as))
+        reassigned == AssignedNames(c.as) \cap S4.wr # {}
+        S5 == [S4 EXCEPT !.wr = @ \cup A.S.wr]
+    IN IF special THEN S5
+       ELSE IF reassigned THEN ClassW(S5, "open", "temporary-variable-reassigned")
+       ELSE RestoreVars(S5, before, AssignedNames(c.as))
 
 ForLoop(c, fs, S, C, first) ==
   IF fs = <<>> THEN (IF first THEN [S EXCEPT !.st = 0] ELSE S)
